@@ -93,6 +93,17 @@ def run(ctx):
         ctx.violation("the implementation crashed the harness process (rc=%d): %s" % (rc, out[-600:]),
                       {"input_hex": bad[1].hex() or "-", "kind": bad[0], "output": out[-3000:]}, True)
         return
+    # the same cases on the SSE dispatch (internal/native/dispatch_amd64.go: useSSE), chosen at process start
+    implf_sse = os.path.join(work, "impl_sse.txt")
+    t0 = time.time()
+    env_sse = dict(c.GOENV)
+    env_sse["SONIC_MODE"] = "noavx2"
+    rc, out = c.sh([hb, "-mode", "run", "-cases", casef, "-out", implf_sse], env=env_sse, timeout=3000, check=False)
+    tm["impl_run_sse"] = round(time.time() - t0, 1)
+    if rc != 0:
+        ctx.violation("the implementation crashed the harness process under SONIC_MODE=noavx2 (rc=%d): %s" % (rc, out[-600:]),
+                      {"output": out[-3000:]}, True)
+        return
     ncases = sum(1 for _ in open(casef))
     t0 = time.time()
     mok, mexe = c.build_model("C02")     # the model only needs the Json/ files: run the tie even when P is broken elsewhere
@@ -124,9 +135,12 @@ def run(ctx):
     evals = 0
     napis = 0
     nmodel = 0
-    # the three files are in the same order: stream them (the thorough tier has millions of cases)
-    fm = open(modelf) if have_model else None
-    with open(casef) as fc, open(implf) as fi:
+    # the files are in the same order: stream them (the thorough tier has millions of cases)
+    answered = {}
+    for implfile, backend in ((implf, ""), (implf_sse, "@sse")):
+      fm = open(modelf) if have_model else None
+      nans = 0
+      with open(casef) as fc, open(implfile) as fi:
         for lc_, li in zip(fc, fi):
             f = lc_.rstrip("\n").split("\t")
             cid, kind, doc = f[0], f[1], (b"" if f[2] == "-" else bytes.fromhex(f[2]))
@@ -138,22 +152,24 @@ def run(ctx):
                     mid, mo = L.parse_line(lm)
                     if mid != cid:
                         mo = None
-                    else:
+                    elif backend == "":
                         nmodel += 1
             if iid != cid:
                 problems.append(("T", "result files out of step at case %s" % cid))
                 break
-            kinds[kind] += 1
-            n = len(doc)
-            sizes["<8" if n < 8 else "<32" if n < 32 else "<64" if n < 64 else "<128" if n < 128 else "<1024" if n < 1024 else ">=1024"] += 1
-            verdicts["std=%s rlx=%s valid=%s" % (im["std"], im["rlx"], im["valid"])] += 1
+            nans += 1
             napis = len(im) - 4
             evals += napis
-            if n > 0:
-                nontrivial.add(hash(doc))
-            if len(ctx.cov["samples"]) < 6 and int(cid) % 397 == 1:
-                ctx.sample({"doc": repr(doc[:60]), "impl_valid": im["valid"], "std": im["std"], "model": (mo or {}).get("vo")})
-            for fd in L.compare_case(cid, kind, doc, im, mo):
+            if backend == "":
+                kinds[kind] += 1
+                n = len(doc)
+                sizes["<8" if n < 8 else "<32" if n < 32 else "<64" if n < 64 else "<128" if n < 128 else "<1024" if n < 1024 else ">=1024"] += 1
+                verdicts["std=%s rlx=%s valid=%s" % (im["std"], im["rlx"], im["valid"])] += 1
+                if n > 0:
+                    nontrivial.add(hash(doc))
+                if len(ctx.cov["samples"]) < 6 and int(cid) % 397 == 1:
+                    ctx.sample({"doc": repr(doc[:60]), "impl_valid": im["valid"], "std": im["std"], "model": (mo or {}).get("vo")})
+            for fd in L.compare_case(cid, kind, doc, im, mo, backend=backend):
                 if fd.sev == "violation":
                     if len(viol) < 2000:
                         viol.append(fd)
@@ -165,17 +181,21 @@ def run(ctx):
                     known_example.setdefault(fd.sev, fd)
                 else:  # a finding id that is not (or no longer) listed: treat as a violation
                     viol.append(fd)
+      answered[backend] = nans
+      if fm is not None:
+        fm.close()
+    fm = None
     if fm is not None:
         fm.close()
     if ncases > 500000:      # the thorough tier leaves > 1 GB of result files behind
-        for fn in (implf, modelf, casef):
+        for fn in (implf, implf_sse, modelf, casef):
             try:
                 os.remove(fn)
             except OSError:
                 pass
-    nimpl = sum(kinds.values())
-    if nimpl != ncases:
-        problems.append(("T", "implementation answered %d of %d cases" % (nimpl, ncases)))
+    for backend, nans in answered.items():
+        if nans != ncases:
+            problems.append(("T", "implementation%s answered %d of %d cases" % (backend, nans, ncases)))
     tm["compare"] = round(time.time() - t0, 1)
     ctx.cov["timings_s"] = tm
     ctx.cov["evaluations"] = evals
@@ -186,7 +206,7 @@ def run(ctx):
                        "escapes straddling block ends), nesting probes at 1..3 and 4094..4098, exhaustive strings over a 12-token alphabet, "
                        "grammar-generated valid documents and their structural mutations; non-trivial = distinct non-empty document")
     ctx.cov["distribution"] = {"kinds": dict(kinds), "sizes": dict(sizes), "verdicts": dict(verdicts),
-                               "apis_per_case": napis,
+                               "apis_per_case": napis, "backends": ["default dispatch (avx2 on this machine)", "SONIC_MODE=noavx2 (sse dispatch)"],
                                "known_finding_hits": dict(seen_known)}
     for fid in sorted(seen_known):
         f = known_example[fid]
